@@ -19,7 +19,8 @@ RULE = ("(a) tokenizer: ALL strings of length <= k over the 24-symbol lexical al
 
 VOCAB = ["(", ")", "{", "}", "[", "]", ";", ",", ":", "?", "=", "*", "&", "#", "if", "else", "while", "return", "struct", "typedef", "enum", "union",
          "sizeof", "static", "const", "int", "void", "x", "42", '"s"', "'c'", "\n", "\t", " ", "->", ".", "...", "++", "//", "/*", "*/", "\\\n", "<", "%:", "do", "for",
-         "switch", "case", "goto", "default", "__attribute__", "defined", "NULL", "extern", "inline", "long", "unsigned", "char"]
+         "switch", "case", "goto", "default", "__attribute__", "defined", "NULL", "extern", "inline", "long", "unsigned", "char", "/* c */", " /* c */ ", "// c",
+         "#", "include", "define", "<", ">", "<a.h>", '"a.h"', "0x", "1e", "'", '"', "\\", "@"]
 
 
 def lex_one(camp, text, origin):
@@ -181,8 +182,24 @@ def damage_case(d):
                 break
     variants = []
     n = len(lex)
+    pre_lines = [i for i, ln in enumerate(p.lines) if ln.kind in ("include", "define", "ifndef", "endif")]
     for _ in range(d.int(6, 10)):
-        k = d.weighted([(4, "prefix"), (3, "edit1"), (3, "edit2")])
+        k = d.weighted([(4, "prefix"), (3, "edit1"), (3, "edit2"), (2, "comment-in-directive") if pre_lines else (0, "x"), (1, "comment-anywhere")])
+        if k in ("comment-in-directive", "comment-anywhere"):
+            # a comment is white space for C: legal between any two tokens, also inside a directive
+            q = p.copy()
+            li = d.choice(pre_lines) if k == "comment-in-directive" else d.int(12, len(q.lines) - 1)
+            lx = q.lines[li].lex
+            if not lx:
+                continue
+            at = d.int(1, len(lx))
+            from ..prog import Lx as _Lx
+            lx.insert(at, _Lx(d.choice(["/* c */", " /* c */", "/* c */ ", "/**/"]), "cmt"))
+            # optionally drop everything after this line (so that nothing later can end a runaway scan)
+            if d.bool(0.5):
+                del q.lines[li + 1:]
+            variants.append((k, q.text))
+            continue
         if k == "prefix":
             cut = d.int(body_start, n)
             variants.append(("prefix", "".join(lex[:cut])))
